@@ -119,6 +119,7 @@ structure Cfg where
   bufsize : Nat := 65536
   https : Bool := false            -- TLS: after the TCP connect the handshake runs inside `create_connection`
   closeDelim : Bool := false       -- response body delimited by connection close (no Content-Length, not chunked)
+  expect100 : Bool := false        -- `Expect: 100-continue`: the body is written only after a 1xx response arrived
   c0 : Nat := 0                    -- `Task.cancelling()` of the calling task when it starts the request
 deriving Repr
 
@@ -135,6 +136,7 @@ structure Piece where
   headDone : Bool     -- the head is complete after this piece
   bodyBytes : Nat     -- payload bytes this piece adds to the stream
   eof : Bool          -- the message is complete after this piece
+  interim : Bool := false   -- the last complete message in this piece is a 1xx interim response (not 101)
 deriving Repr, DecidableEq
 
 inductive Ev where
@@ -179,6 +181,8 @@ structure St where
   rpaused : Bool := false
   queued : List Piece := []
   respReleased : Bool := false      -- the response no longer owns a connection
+  reqSent : Bool := false           -- `start_timeout()` was called: the request is sent completely, we wait for the peer
+  wait100 : Bool := false           -- the writer task waits for `100 Continue` before writing the body
   tls : Bool := false               -- the current connect attempt is in its TLS handshake
   peerLost : Bool := false          -- the peer closed; `connection_lost` not yet delivered
   dropTotal : Bool := false         -- `handle.cancel` of the total timer is queued behind the writer's end
@@ -372,7 +376,9 @@ def afterConnect (cfg : Cfg) (s : St) : St :=
   let s := (sockExit s .timeout).1
   let s := (connExit s .timeout).1
   let s := { s with tr := .open, slot := .proto }
-  let s := if cfg.wstall then { s with wr := .parked } else reschedRead cfg s
+  let s := if cfg.expect100 then { s with wr := .parked, wait100 := true }
+           else if cfg.wstall then { s with wr := .parked }
+           else reschedRead cfg { s with reqSent := true }       -- `protocol.start_timeout()`
   { s with pc := .headers, wake := none, tcBase := s.cancelling }
 
 /-! ## exception paths -/
@@ -447,13 +453,25 @@ def resumeR (cfg : Cfg) (s : St) : St :=
 
 /-! ## response bytes -/
 
+/-- a 1xx interim response (not 101) was parsed (`data_received`, EMPTY_PAYLOAD branch).  Sources with the
+fix (probed: `Gen.C18.interimKeepsTimerWhenSent`) keep the just re-armed read timer when the request
+had been sent completely (`start_timeout()` called); otherwise — and always in sources without the
+fix — the timer is dropped.  Then `ClientResponse.start` sets the `100 Continue` waiter and the
+writer task writes the body (and stalls in `drain()` or finishes: `start_timeout()`). -/
+def interimStep (cfg : Cfg) (s : St) : St :=
+  let s := if Gen.C18.interimKeepsTimerWhenSent && s.reqSent then s else dropRead s
+  if s.wait100 ∧ s.wr = .parked then
+    if cfg.wstall then { s with wait100 := false }
+    else reschedRead cfg { s with wait100 := false, wr := .finished, reqSent := true }
+  else s
+
 def deliver (cfg : Cfg) (s : St) (p : Piece) : St :=
   if s.tr ≠ .open then s
   else if s.rpaused then { s with queued := s.queued ++ [p] }
   else
     let s := if p.n > 0 then reschedRead cfg s else s
     if !s.headDone then
-      if !p.headDone then s
+      if !p.headDone then (if p.interim then interimStep cfg s else s)
       else
         let s := { s with headDone := true, buffered := s.buffered + p.bodyBytes, eof := s.eof || p.eof }
         let s := if p.eof then dropRead s else pauseCheck cfg s
@@ -517,7 +535,7 @@ def applyEv (cfg : Cfg) (s : St) : Ev → St
   | .tlsDone i =>
     if s.pc = .connecting ∧ s.attempt = i ∧ s.tls ∧ s.wake = none then { s with wake := some .result } else s
   | .writeResume =>
-    if s.wr = .parked ∧ s.tr = .open then reschedRead cfg { s with wr := .finished } else s
+    if s.wr = .parked ∧ !s.wait100 ∧ s.tr = .open then reschedRead cfg { s with wr := .finished, reqSent := true } else s
   | .bytes p => deliver cfg s p
   | .peerEof =>
     -- `eof_received()`: `_drop_timeout`; the transport is closing; `connection_lost` follows (`lostStep`)
